@@ -44,6 +44,38 @@ func starCase(leaves, long int, hubAtTrunk bool, rep int) C12Case {
 	return c
 }
 
+// freshCase: every node holds the same 8-block chain; one of them then mines a
+// block with two payments nobody else has seen and announces it by an outline
+// without bodies (with pool: after broadcasting the payments as a transaction
+// set). topo: pair | line-end (miner at one end of a line of three) |
+// line-middle | star-leaf (hub + 3 leaves, a leaf mines).
+func freshCase(topo string, pool bool) C12Case {
+	tc := kit.TreeCase{Net: kit.NetSpec{Maturity: 1, Allow: 2, ReqOff: 1, CutOff: 2}}
+	const chain = 8
+	for i := 0; i < chain; i++ {
+		tc.Blocks = append(tc.Blocks, kit.BlockSpec{Dt: 1, Miner: i % 4, OnBad: true, Txs: []kit.Intent{{Kind: "pay", Who: i % 4, To: (i + 1) % 4, Pick: i, Amt: 3, V2: true}}})
+	}
+	appendRun(&tc, chain-1, []kit.BlockSpec{{Dt: 2, Miner: 1, Txs: []kit.Intent{{Kind: "pay", Who: 0, To: 1, Pick: 3, Amt: 3, V2: true}, {Kind: "pay", Who: 3, To: 2, Pick: 1, Amt: 5, Fee: true, V2: true}}}})
+	c := C12Case{Tree: tc, Outline: true, Fresh: &FreshSpec{Pool: pool}}
+	at := C12Node{Tip: 2*(chain-1) + 1}
+	switch topo {
+	case "pair":
+		c.Nodes = []C12Node{at, at}
+		c.Edges = []C12Edge{{From: 1, To: 0}}
+	case "line-end", "line-middle":
+		c.Nodes = []C12Node{at, at, at}
+		c.Edges = []C12Edge{{From: 0, To: 1}, {From: 2, To: 1, DelayMS: 10}}
+		if topo == "line-middle" {
+			c.Fresh.Miner = 1
+		}
+	default:
+		c.Nodes = []C12Node{at, at, at, at}
+		c.Edges = []C12Edge{{From: 1, To: 0}, {From: 2, To: 0}, {From: 0, To: 3}}
+		c.Fresh.Miner = 2
+	}
+	return c
+}
+
 // deepForkCase: two (or three) nodes on forks that part ways `depth` blocks
 // below their tips, every node with a small per-subnet RPC budget. The lighter
 // node's SendHeaders walk through its history meets `depth` entries the heavier
@@ -78,7 +110,7 @@ func deepForkCase(depth, budget int, lighterDials bool, third bool) C12Case {
 	return c
 }
 
-const starsRule = "enumerated stars: a hub that dials 3 or 4 leaves at once, one leaf holding the dominating branch (6-block trunk + 8 or 120 blocks, i.e. one or two block requests), the others short forks off the trunk tip, hub at genesis or at the trunk tip, two repetitions each (header+outline / outline-only announcements); same oracle as TestC12 (audits, no bans among honest nodes, convergence when quiescent, stall window). While the hub downloads the dominating branch its other unsynced peers are workers that cannot serve the requests, so failed requests must find their way to the peer that can. Plus 8 deep-fork cases: two or three nodes on forks that part 5 or 12 blocks below their tips, every node with WithMaxInflightRPCsPerSubnet(3 or 6), either side dialling: the lighter node's history walk makes that many SendHeaders handlers end with an error before the common ancestor is found - the budget must come back whatever way a handler ends."
+const starsRule = "enumerated stars: a hub that dials 3 or 4 leaves at once, one leaf holding the dominating branch (6-block trunk + 8 or 120 blocks, i.e. one or two block requests), the others short forks off the trunk tip, hub at genesis or at the trunk tip, two repetitions each (header+outline / outline-only announcements); same oracle as TestC12 (audits, no bans among honest nodes, convergence when quiescent, stall window). While the hub downloads the dominating branch its other unsynced peers are workers that cannot serve the requests, so failed requests must find their way to the peer that can. Plus 8 deep-fork cases: two or three nodes on forks that part 5 or 12 blocks below their tips, every node with WithMaxInflightRPCsPerSubnet(3 or 6), either side dialling: the lighter node's history walk makes that many SendHeaders handlers end with an error before the common ancestor is found - the budget must come back whatever way a handler ends. Fresh blocks: every node of a pair / line of three (miner at the end, in the middle) / star (a leaf mines) holds the same chain; one node mines a child carrying two payments nobody else has seen and announces it by an outline without transaction bodies - directly (receivers lack the transactions and fetch them from the announcing node with SendTransactions; the next hop gets them relayed) or after broadcasting them as a v2 transaction set (receivers complete the outline from their pools); all announcements of these cases are outlines without bodies; every node must end on the new block, nobody banned."
 
 // TestC12Stars runs the enumerated star topologies (round robin over shards).
 func TestC12Stars(t *testing.T) {
@@ -112,6 +144,23 @@ func TestC12Stars(t *testing.T) {
 					d.Case(c, cs, err)
 				}
 			}
+		}
+	}
+	// a freshly mined block with transactions only the miner has
+	for _, topo := range []string{"pair", "line-end", "line-middle", "star-leaf"} {
+		for _, pool := range []bool{false, true} {
+			i++
+			if (i-1)%shards != shard {
+				continue
+			}
+			c := freshCase(topo, pool)
+			cs := &kit.CaseStats{}
+			err := c12Prop.SafeRun(c, cs)
+			cs.Classf("fresh:%s,pool=%v", topo, pool)
+			if err != nil {
+				err = fmt.Errorf("fresh block (%s, transactions broadcast as a set first=%v): %w", topo, pool, err)
+			}
+			d.Case(c, cs, err)
 		}
 	}
 	// deep forks under small per-subnet RPC budgets
@@ -241,9 +290,9 @@ func TestC12Forks(t *testing.T) {
 			continue
 		}
 		err := c12Prop.SafeRun(c, cs)
-		cs.Classf("fork:heavier-not-longer,%s,heavier=%d,lighter=%d,order=%s", sh.rel(), sh.fast, sh.slow, sh.order)
+		cs.Classf("fork:heavier-not-longer,%s,fast-branch=%d,slow-branch=%d,order=%s", sh.rel(), sh.fast, sh.slow, sh.order)
 		if err != nil {
-			err = fmt.Errorf("heavier-not-longer fork (calm network with difficulty ~4096; the sufficiently heavier branch has %d blocks one second apart, the lighter one %d blocks %d s apart: heavier %s; %s): %w", sh.fast, sh.slow, sh.slowDt, sh.rel(), sh.order, err)
+			err = fmt.Errorf("heavier-not-longer fork (calm network with difficulty ~4096; a branch of %d blocks one second apart against one of %d blocks %d s apart: the sufficiently heavier one is %s; %s): %w", sh.fast, sh.slow, sh.slowDt, sh.rel(), sh.order, err)
 		}
 		d.Case(c, cs, err)
 	}
